@@ -126,7 +126,16 @@ pub fn run(cfg: &Cfg, rep: &mut Report) {
     run_cases(cfg, "undefined", n, rep, |rng, ctx| {
         let q = &QUANTITIES[(ctx.index % QUANTITIES.len() as u64) as usize];
         let lit = gen_nrf(rng);
-        let mut suffix: Vec<u8> = match rng.usize(6) {
+        let mut suffix: Vec<u8> = match rng.usize(7) {
+            6 => {
+                // compound forms composed across the tables: <unit>.<time unit>, <unit>/<unit> (A.S, W.S, V/S, OHM.M ...);
+                // the few SCPI defines for the quantity are skipped below like any defined suffix
+                let o = &QUANTITIES[rng.usize(QUANTITIES.len())];
+                let a = rng.pick(o.table).s;
+                let b: &str = *rng.pick(&["S", "HR", "MIN", "MS", "M", "HZ", "V", "A"]);
+                let sep = if rng.chance(3, 4) { "." } else { "/" };
+                case_pattern(rng, &format!("{}{}{}", a, sep, b))
+            }
             0 => {
                 let f: &str = *rng.pick(FOREIGN);
                 case_pattern(rng, f)
